@@ -6,6 +6,7 @@ CONSTANTS
   MsgTypes = {0, 1, 2, 3, 4}
   MaxPeer = 2
   MaxApp = 2
+  PeerMode = "adversarial"
   Variant = "asis"
 SPECIFICATION Spec
 CHECK_DEADLOCK FALSE
